@@ -239,7 +239,46 @@ func (g *dgen) object(n, depth int, loc Loc) *spec.Type {
 		g.requiredOrDefault(f)
 		o.Fields = append(o.Fields, f)
 	}
+	g.extend(o)
 	return o
+}
+
+// extend may make an object extend an earlier plain object type (DSL Extend): the base's attributes,
+// required list and validations are merged in. Returns true when it did.
+func (g *dgen) extend(o *spec.Type) bool {
+	t := g.t
+	var bases []*spec.UserType
+	for _, u := range g.d.Types {
+		if u.IsResult || u.IsError || u.Attr.Type.Kind != spec.Object || len(u.Attr.Type.Fields) == 0 {
+			continue
+		}
+		clash := false
+		for _, f := range u.Attr.Type.Fields {
+			if o.Field(f.Name) != nil || f.Sec != "" {
+				clash = true
+			}
+		}
+		if !clash {
+			bases = append(bases, u)
+		}
+	}
+	if len(bases) == 0 || t.Draw("extend", 5) != 0 {
+		return false
+	}
+	b := bases[t.Draw("extend-which", len(bases))]
+	o.Extend = b.Name
+	for _, f := range b.Attr.Type.Fields {
+		var cp spec.Attr
+		raw, _ := json.Marshal(f)
+		json.Unmarshal(raw, &cp)
+		cp.Inherited = true
+		o.Fields = append(o.Fields, &cp)
+		if f.Required && t.Draw("extend-repeat-required", 2) == 0 {
+			o.RequiredRepeat = append(o.RequiredRepeat, f.Name)
+		}
+	}
+	g.feat("type:extend")
+	return true
 }
 
 func (g *dgen) requiredOrDefault(f *spec.Attr) {
@@ -416,6 +455,10 @@ func (g *dgen) method(svc *spec.Service, idx int) *spec.Method {
 				g.feat("loc:body")
 			}
 			p.Fields = append(p.Fields, f)
+		}
+		if g.extend(p) {
+			hasBody = true // the inherited attributes are not mapped anywhere: they travel in the body
+			g.feat("payload:extend")
 		}
 		m.Payload = &spec.Attr{Type: p}
 		if hasBody && t.Draw("payload-user-type", 4) == 0 {
